@@ -167,8 +167,145 @@ CanonVerdict(e) ==
       ELSE IF Less(A.on, res.on) THEN Bad("result larger than the input")
       ELSE Good(Sx, it))
 
+-----------------------------------------------------------------------------
+(* Two-level forms (C12 - C16).  Events are self-contained: operands (av, bv) and results (r)  *)
+(* are logged as projections read through the public accessors.                             *)
+DC(c) == [p |-> ToSet(c.p), q |-> ToSet(c.q)]
+DE(c) == [v |-> ToSet(c.v), x |-> c.x]
+DCs(cs) == [k \in 1..Len(cs) |-> DC(cs[k])]
+DEs(cs) == [k \in 1..Len(cs) |-> DE(cs[k])]
+CubeOK(j, exp) == DC(j) = exp /\ j.z = (exp = CubeZero)
+FormFn(k, n, cs) == CASE k = "sop" -> SopFn(n, DCs(cs)) [] k = "esop" -> EsopFn(n, DCs(cs)) [] k = "soes" -> SoesFn(n, DEs(cs))
+TwoKindStrict(k, op) ==
+  CASE MODE = "C12" -> k = "cube" /\ op \notin {"t_text", "t_alltext"}
+    [] MODE = "C13" -> k \in {"ecube", "soes"} /\ op \notin {"t_text", "t_alltext"}
+    [] MODE = "C14" -> k = "sop" /\ op \notin {"t_text", "t_alltext"}
+    [] MODE = "C15" -> k = "esop" /\ op \notin {"t_text", "t_alltext"}
+    [] MODE = "C16" -> op \in {"t_text", "t_alltext"}
+    [] OTHER -> FALSE
+SmallSupport(a, b) == Cardinality(CubeSupport(a) \cup CubeSupport(b)) <= 10
+
+MkCubeExp(e) ==
+  CASE e.c = "one" -> CubeOne
+    [] e.c = "zero" -> CubeZero
+    [] e.c = "nth_var" -> [p |-> {e.i}, q |-> {}]
+    [] e.c = "nth_var_inv" -> [p |-> {}, q |-> {e.i}]
+    [] e.c = "minterm" -> Minterm(e.n, ToSet(e.mb))
+    [] e.c \in {"from_vars", "from_mask"} -> MkCube(ToSet(e.p), ToSet(e.q))
+MkEcubeExp(e) ==
+  CASE e.c = "one" -> [v |-> {}, x |-> TRUE]
+    [] e.c = "zero" -> [v |-> {}, x |-> FALSE]
+    [] e.c = "nth_var" -> [v |-> {e.i}, x |-> FALSE]
+    [] e.c = "nth_var_inv" -> [v |-> {e.i}, x |-> TRUE]
+    [] e.c = "from_vars" -> [v |-> ToSet(e.v), x |-> e.x]
+\* expected cube list of the form constructors that determine it
+MkFormOK(e) ==
+  LET cs == e.r.cubes
+      dec == IF e.k = "soes" THEN DEs(cs) ELSE DCs(cs)
+      one == IF e.k = "soes" THEN [v |-> {}, x |-> TRUE] ELSE CubeOne
+      var == IF e.k = "soes" THEN [v |-> {e.i}, x |-> FALSE] ELSE [p |-> {e.i}, q |-> {}]
+      inv == IF e.k = "soes" THEN [v |-> {e.i}, x |-> TRUE] ELSE [p |-> {}, q |-> {e.i}]
+      f == IF e.c \in {"from_lut_ref", "from_lut_val"} THEN ToSet(e.on) ELSE {}
+  IN /\ e.r.n = e.n
+     /\ ToSet(e.r.vals) = FormFn(e.k, e.n, cs)                 \* value() is the OR / XOR of the terms
+     /\ CASE e.c = "zero" -> dec = <<>>
+          [] e.c = "one" -> dec = <<one>>
+          [] e.c = "nth_var" -> dec = <<var>>
+          [] e.c = "nth_var_inv" -> dec = <<inv>>
+          [] e.c = "from_cubes" -> dec = (IF e.k = "soes" THEN DEs(e.cubes) ELSE DCs(e.cubes))
+          [] e.k = "sop" -> IsMintermCover(e.n, f, dec) /\ ToSet(e.r.vals) = f
+          [] e.k = "esop" -> Len(dec) = Cardinality(PprmCubes(e.n, f)) /\ SeqSet(dec) = PprmCubes(e.n, f)
+                             /\ ToSet(e.r.vals) = f
+
+TwoOK(e) ==
+  CASE e.op = "t_mk" ->
+         (CASE e.k = "cube" -> CubeOK(e.r, MkCubeExp(e))
+            [] e.k = "ecube" -> DE(e.r) = MkEcubeExp(e)
+            [] OTHER -> MkFormOK(e))
+    [] e.op = "t_val" ->
+         LET M == ToSet(e.mb) IN
+         (CASE e.k = "cube" -> e.r = CubeVal(DC(e.av), M)
+            [] e.k = "ecube" -> e.r = EcubeVal(DE(e.av), M)
+            [] e.k = "sop" -> e.r = (\E k \in 1..Len(e.av.cubes) : CubeVal(DC(e.av.cubes[k]), M))
+            [] e.k = "soes" -> e.r = (\E k \in 1..Len(e.av.cubes) : EcubeVal(DE(e.av.cubes[k]), M))
+            [] e.k = "esop" -> e.r = (Cardinality({k \in 1..Len(e.av.cubes) : CubeVal(DC(e.av.cubes[k]), M)}) % 2 = 1))
+    [] e.op = "t_bin" ->
+         (CASE e.k = "cube" -> CubeOK(e.r, CubeAnd(DC(e.av), DC(e.bv)))
+            [] e.k = "ecube" -> DE(e.r) = EcubeXor(DE(e.av), DE(e.bv))
+            [] OTHER ->
+               LET n == e.av.n
+                   fa == FormFn(e.k, n, e.av.cubes)
+                   fb == FormFn(e.k, n, e.bv.cubes)
+                   fr == CASE e.g = "and" -> fa \cap fb [] e.g = "or" -> fa \cup fb [] e.g = "xor" -> SymDiff(fa, fb)
+               IN /\ e.r.n = n
+                  /\ ToSet(e.r.vals) = fr
+                  /\ FormFn(e.k, n, e.r.cubes) = fr
+                  /\ e.k = "sop" => Irredundant(DCs(e.r.cubes)))
+    [] e.op = "t_not" ->
+         (CASE e.k = "ecube" -> DE(e.r) = EcubeNot(DE(e.av))
+            [] OTHER ->
+               LET n == e.av.n
+                   fr == Dom(n) \ FormFn(e.k, n, e.av.cubes)
+               IN /\ e.r.n = n
+                  /\ ToSet(e.r.vals) = fr
+                  /\ FormFn(e.k, n, e.r.cubes) = fr
+                  /\ e.k = "sop" => Irredundant(DCs(e.r.cubes)))
+    [] e.op = "t_rel" ->
+         (CASE e.k = "cube" ->
+                 LET a == DC(e.av)
+                     b == DC(e.bv)
+                     V == CubeSupport(a) \cup CubeSupport(b)
+                 IN (CASE e.f = "implies" -> e.r = (IF SmallSupport(a, b) THEN ImpliesSem(a, b, V) ELSE ImpliesSyn(a, b))
+                       [] e.f = "intersects" -> e.r = (IF SmallSupport(a, b) THEN IntersectsSem(a, b, V) ELSE IntersectsSyn(a, b))
+                       [] e.f = "eq" -> e.r = (IF SmallSupport(a, b) THEN CubeSat(a, V) = CubeSat(b, V) ELSE a = b))
+            [] e.k = "ecube" ->
+                 LET a == DE(e.av)
+                     b == DE(e.bv)
+                     V == a.v \cup b.v
+                 IN e.r = (IF Cardinality(V) <= 10 THEN \A M \in SUBSET V : EcubeVal(a, M) = EcubeVal(b, M) ELSE a = b)
+            [] OTHER -> TRUE)
+    [] e.op = "t_implut" ->
+         (CASE e.k = "cube" -> e.r = ImplicantOf(DC(e.av), e.n, ToSet(e.on))
+            [] e.k = "ecube" -> e.r = (EcubeFn(DE(e.av), e.n) \subseteq ToSet(e.on)))
+    [] e.op = "t_info" ->
+         (CASE e.k = "cube" ->
+                 LET c == DC(e.av) IN
+                 /\ e.r.num_lits = CubeNumLits(c) /\ e.r.num_gates = Gates(CubeNumLits(c))
+                 /\ e.r.is_zero = Contradictory(c) /\ e.r.is_one = (c = CubeOne)
+                 /\ e.r.is_constant = (Contradictory(c) \/ c = CubeOne)
+            [] e.k = "ecube" ->
+                 LET c == DE(e.av) IN
+                 /\ e.r.num_lits = Cardinality(c.v) /\ e.r.num_gates = Gates(Cardinality(c.v))
+                 /\ e.r.is_zero = (c.v = {} /\ ~c.x) /\ e.r.is_one = (c.v = {} /\ c.x)
+            [] OTHER ->
+                 LET n == e.av.n
+                     f == FormFn(e.k, n, e.av.cubes)
+                 IN /\ e.r.num_vars = n /\ e.r.num_cubes = Len(e.av.cubes)
+                    /\ e.r.is_one => f = Dom(n)
+                    /\ IF e.k = "sop" THEN e.r.is_zero = (f = {}) ELSE (e.r.is_zero => f = {}))
+    [] e.op = "t_all" ->
+         (CASE e.k = "cube" -> Len(e.r) = 3^e.n /\ {DC(e.r[k]) : k \in 1..Len(e.r)} = AllCubes(e.n)
+            [] e.k = "ecube" -> Len(e.r) = 2^(e.n + 1) /\ {DE(e.r[k]) : k \in 1..Len(e.r)} = AllEcubes(e.n))
+    [] e.op = "t_tolut" ->
+         /\ e.r.n = e.av.n /\ WFTab(e.r) /\ Meaning(e.r) = FormFn(e.k, e.av.n, e.av.cubes)
+    [] e.op = "t_text" ->
+         /\ TextParses(e.r)
+         /\ TextFn(e.r, e.n) = ToSet(e.vals)
+         /\ TextIncreasing(e.r)
+         /\ e.k = "ecube" => XorListIncreasing(e.r)
+    [] e.op = "t_alltext" ->
+         /\ \A k \in 1..Len(e.r) : TextParses(e.r[k].t)
+         /\ Cardinality({e.r[k].t : k \in 1..Len(e.r)}) = Len(e.r)      \* distinct cubes print distinct text
+
+TwoVerdict(e) ==
+  IF ~TwoKindStrict(e.k, e.op) THEN Setup(slots, it)
+  ELSE IF e.out # "ok" THEN Bad("outcome " \o e.out \o " not allowed")
+  ELSE IF TwoOK(e) THEN Good(slots, it)
+  ELSE Bad("wrong result")
+
 Verdict(e) ==
   IF e.out = "skip" THEN Poison
+  ELSE IF e.ty = "two" THEN TwoVerdict(e)
   ELSE IF e.op = "canon" THEN CanonVerdict(e)
   ELSE IF e.op = "conv_int" THEN ConvIntVerdict(e)
   ELSE IF e.op = "random" THEN Adopt(e, it)
